@@ -62,6 +62,7 @@ PoolSets ==
       [] Family = "C03b"  -> <<PoolC03b(TestsA, 2, {Rel1("child", NTAny), Call("not", <<Rel1("child", NTAny)>>),
                                                     Bin("=", SelfDot, Lit("1")), Rel1("following-sibling", NTName("a")),
                                                     Rel1("ancestor", NTName("a"))})>>
+      [] Family = "C03cont" -> [i \in 1 .. 12 |-> PoolC03cont({SetToSeq(AllAxes)[i]})]
       [] Family = "C03paren" -> <<PoolC03paren(FlatPaths, 4)>>
       [] Family = "C07cmp"  -> PoolC07cmpSets
       [] Family = "C07bool" -> <<PoolC07bool>>
